@@ -38,6 +38,23 @@ CHECKS = {
     note="Trusted: TLC; harness recomputes glyph boxes from stored outlines; fontTools recalculates some header fields on save (those are then fontTools' values, still required to be consistent).",
     technique="TLA+ metrics model; TLC exhaustive loop check + TLC validation of observed tables of real compiles",
     design="5 C04"),
+ "C05": dict(
+    text="UFO kerning precedence (UfoKerning.tla) and OpenType GPOS application (OTPos.tla: script/langsys reachability, lookup "
+         "flags and mark filtering sets, PairPos 1/2 first-deciding-subtable rule) are written in TLA+; TLC checks the writer "
+         "core (prune, drop zero class-class, quantise, sort by kind, first match) exhaustively against the UFO reference and "
+         "evaluates, on the structural GPOS/GDEF dump of every generated compile, EVERY (script, language, glyph, glyph) "
+         "triple: advance = quantised UFO value, RTL placement = advance, mixed-direction pairs zero-or-value, both writers.",
+    note="Trusted: TLC; fontTools otTables decompiler; Unicode data for the independent script/bidi classification.",
+    technique="TLA+ OpenType interpreter + UFO kerning reference evaluated by TLC on compiled tables; exhaustive TLC check of the writer core",
+    design="5 C05"),
+ "C06": dict(
+    text="OTPos.tla interprets MarkBasePos / MarkLigPos / MarkMarkPos (last applying lookup wins); MarkTrace.tla computes the "
+         "candidate offsets from the UFO anchors (quantise-then-round, ligature component numbering, NULL components, GDEF "
+         "classes) and TLC checks every (language system, kind, bearer, component, mark) item of every generated compile; "
+         "MarkMC.tla checks the one-lookup-per-class / last-wins rule exhaustively.",
+    note="Trusted: TLC; fontTools otTables decompiler; anchor-name parsing re-implemented lexically in the harness.",
+    technique="TLA+ mark-attachment interpreter evaluated by TLC on compiled tables; exhaustive TLC check of the class/lookup ordering rule",
+    design="5 C06"),
  "C07": dict(
     text="Purity.tla states `no step of a call without inplace changes the sources` as an action property over the call "
          "protocol (incl. compile_variable's save/override/restore of compiler options and the raise path) and TLC checks it; "
